@@ -453,10 +453,11 @@ func (m *passivationManager) MessageProcessed(pid *PID) {
 		return
 	}
 
+	// current < baseline+maxMessages, written so that a very large maxMessages cannot overflow
+	// int64 (the sum wrapped to a negative threshold and passivated the actor at once).
 	current := int64(pid.ProcessedCount())
-	threshold := entry.baseline + int64(entry.maxMessages)
 
-	if current < threshold {
+	if current-entry.baseline < int64(entry.maxMessages) {
 		m.mu.Unlock()
 		return
 	}
